@@ -8,6 +8,7 @@ EXTRA = {  # reverse patches: which properties' checks should notice
     "revert-C03-eager-extern": ["C03", "C11"], "revert-C03-exponential-chain": ["C03", "C08"], "revert-C12-skip-closure": ["C12", "C02", "C08"],
     "revert-C11-extern-all-crash": ["C11", "C08"], "revert-C08-oversize-image": ["C08", "C13"], "revert-C10-nonascii-case": ["C10"],
     "revert-C12-base-cancellation": ["C12"], "revert-C17-angle-chunk-span": ["C17"],
+    "revert-C10-title-comment": ["C10", "C17"], "revert-C19-lst-locale": ["C19"],
 }
 def props_for(name):
     if name in EXTRA:
